@@ -224,12 +224,18 @@ def r71(ctx, repo):
 def r72(ctx, repo):
     cls = repo.cls(FB, "BasinProxyFeature")
     ORIGIN, MAP = "self.feat_obj", "self.basinmap"
-    for mname in ("__getitem__", "__array__"):
+    top = ("__getitem__", "__array__")
+    pending = [(nm, None) for nm in top]
+    helper_calls = {}       # same-class helper -> [map-derived parameters]
+    done = set()
+    while pending:
+        mname, seed = pending.pop(0)
         m = method(cls, mname)
         if m is None:
             raise AnalysisError(f"BasinProxyFeature.{mname} lost")
-        # names derived from the map
-        mapidx = set()          # index arrays taken from the map
+        # names derived from the map (for a helper: the parameters that
+        # receive map-derived arguments at every call site)
+        mapidx = set(seed or ())    # index arrays taken from the map
         enum = {}               # loop -> (pos name, value name, iter text)
         changed = True
         while changed:
@@ -304,9 +310,29 @@ def r72(ctx, repo):
                    f"origin are returned at the referrer's indices",
                    node=acc, label=f"{mname} origin access "
                    f"{short(acc.parent if whole else acc, 40)}")
-        if n_access == 0:
+        # calls of helpers of the same class: followed with the parameters
+        # bound to what the arguments are
+        n_helper = 0
+        for c in walk(m):
+            if isinstance(c, ast.Call) and is_self_attr(c.func) \
+                    and c.func.attr not in top and method(
+                        cls, c.func.attr) is not None:
+                hm = method(cls, c.func.attr)
+                params = [a.arg for a in hm.args.args][1:]
+                bound = {params[i] for i, a in enumerate(c.args)
+                         if i < len(params) and map_derived(a)}
+                bound |= {kw.arg for kw in c.keywords
+                          if kw.arg in params and map_derived(kw.value)}
+                helper_calls.setdefault(c.func.attr, []).append(bound)
+                n_helper += 1
+        if n_access == 0 and not n_helper and mname in top:
             raise AnalysisError(f"BasinProxyFeature.{mname}: no access to "
                                 f"the origin found")
+        if not pending:
+            for hn, sets in sorted(helper_calls.items()):
+                if hn not in done:
+                    done.add(hn)
+                    pending.append((hn, set.intersection(*sets)))
         # enumerate loops: out[pos] = origin[value]
         for lp, (pname, vname, ittxt) in enum.items():
             fills = [n for n in walk(lp) if isinstance(n, ast.Assign)
@@ -537,9 +563,13 @@ def r73(ctx, repo):
            "definition", node=sb, label="stores the definition",
            nontrivial=False)
     # filter array
+    def is_filter_all(v):
+        if isinstance(v, ast.IfExp):
+            return is_filter_all(v.body) or is_filter_all(v.orelse)
+        return isinstance(v, ast.Attribute) and txt(v).endswith(".filter.all")
     farr = [n.targets[0].id for n in walk(ex) if isinstance(n, ast.Assign)
             and isinstance(n.targets[0], ast.Name)
-            and txt(n.value).endswith(".filter.all")]
+            and is_filter_all(n.value)]
     if len(set(farr)) != 1:
         raise AnalysisError("Export.hdf5: filter array binding lost")
     F = farr[0]
@@ -548,19 +578,15 @@ def r73(ctx, repo):
     ctx.ob("R7.3", ok, f"events are filtered with `{F}`" if ok else
            f"events are not filtered with `{F}`", node=sff[0] if sff else ex,
            label="event filter array", nontrivial=False)
-    origs = [n.targets[0].id for n in walk(lp) if isinstance(n, ast.Assign)
-             and isinstance(n.targets[0], ast.Name)
-             and dict_get(n.value, var, "basin_map")]
     asg = [n for n in walk(lp) if isinstance(n, ast.Assign)
            and is_key(n.targets[0], var, "basin_map")]
-    if len(origs) != 1:
-        raise AnalysisError("Export.hdf5: original basin map binding lost")
-    orig = origs[0]
     marker = object()
+    orig_is, orig_env = map_refs(lp, var)
+    orig = "<upstream map>"
 
     def executed(filtered, mapped):
-        env = {"filtered": filtered, orig: marker if mapped else None,
-               F: marker}
+        env = {"filtered": filtered, F: marker}
+        env.update(orig_env(marker if mapped else None))
         out = []
         for n in asg:
             conds = enclosing_conditions(n, lp)
@@ -580,8 +606,8 @@ def r73(ctx, repo):
             v.args[0], F)
 
     def is_compose(v):
-        return isinstance(v, ast.Subscript) and is_name(
-            v.value, orig) and is_name(v.slice, F)
+        return isinstance(v, ast.Subscript) and orig_is(
+            v.value) and is_name(v.slice, F)
     for filtered, mapped, what, pred in (
             (False, False, "unchanged", None), (False, True, "unchanged",
                                                 None),
@@ -706,10 +732,10 @@ def r73(ctx, repo):
             v2 = l2.target.id
             a2 = [n for n in walk(l2) if isinstance(n, ast.Assign)
                   and is_key(n.targets[0], v2, "basin_map")]
-            env_none = {f"{v2}['basin_map']": None}
-            env_map = {f"{v2}['basin_map']": marker}
+            ref_is, ref_env = map_refs(l2, v2)
             got = {}
-            for nm, env in (("same", env_none), ("mapped", env_map)):
+            for nm, val in (("same", None), ("mapped", marker)):
+                env = ref_env(val)
                 live = [n for n in a2 if all(
                     bool(fold(t, env, "re-mapping branch")) == pol
                     for t, pol in enclosing_conditions(n, l2))]
@@ -718,9 +744,8 @@ def r73(ctx, repo):
                 got["same"][0].value)
             vmapped = got["mapped"][0].value if len(
                 got["mapped"]) == 1 else None
-            ok_map = isinstance(vmapped, ast.Subscript) and is_key(
-                vmapped.value, v2, "basin_map") and is_root_map(
-                vmapped.slice)
+            ok_map = isinstance(vmapped, ast.Subscript) and ref_is(
+                vmapped.value) and is_root_map(vmapped.slice)
             if ok_same and ok_map:
                 remap.append(l2)
         ctx.ob("R7.3", bool(remap),
@@ -756,6 +781,37 @@ def r73(ctx, repo):
            f"not parameters of store_basin", node=dd[0],
            label="as_dict keys", nontrivial=False)
     r73_writer(ctx, repo)
+
+
+def map_refs(loop, var):
+    """How the loop body refers to the map of the definition `var`:
+    ``var["basin_map"]``, ``var.get("basin_map")`` or a local assigned once
+    from one of them before the map is rewritten.
+    -> (is_ref(expr), env(value) for the evaluator)"""
+    first_write = min([n.lineno for n in walk(loop) if isinstance(
+        n, ast.Assign) and is_key(n.targets[0], var, "basin_map")]
+        or [10 ** 9])
+    names = {}
+    for n in walk(loop):
+        if isinstance(n, ast.Assign) and len(n.targets) == 1 and isinstance(
+                n.targets[0], ast.Name) and dict_get(
+                n.value, var, "basin_map"):
+            names.setdefault(n.targets[0].id, []).append(n)
+    locs = {k for k, v in names.items()
+            if len(v) == 1 and v[0].lineno < first_write
+            and sum(1 for x in walk(loop) if isinstance(x, ast.Name)
+                    and x.id == k and isinstance(x.ctx, ast.Store)) == 1}
+
+    def is_ref(e):
+        return dict_get(e, var, "basin_map") or (
+            isinstance(e, ast.Name) and e.id in locs)
+
+    def env(value):
+        out = {f"{var}['basin_map']": value,
+               f"{var}.get('basin_map')": value}
+        out.update({k: value for k in locs})
+        return out
+    return is_ref, env
 
 
 def stmt_of_if(node):
@@ -1190,10 +1246,11 @@ def _provider(cls, attr):
 def _classify(cls, attr, node, v):
     if attr == "size" and "self.shape" in txt(v):
         return "derived", node, None
+    if isinstance(v, ast.Call) and call_name(v) in ("tuple", "list") \
+            and len(v.args) == 1:
+        v = v.args[0]
     if isinstance(v, ast.Attribute) and v.attr == attr:
         return "forward", node, v.value
-    if isinstance(v, ast.Call) and call_name(v) == "tuple" and v.args:
-        v = v.args[0]
     if isinstance(v, ast.BinOp) and isinstance(v.op, ast.Add):
         v = v.left
         if isinstance(v, ast.Call) and call_name(v) == "tuple" and v.args:
@@ -1466,6 +1523,45 @@ TWINS = [
       'if np.array_equal(self.h5file["events"][bm_cand], basin_map):')),
     ("copier loop variable renamed", COPIER,
      lambda s: s.replace("l_key", "log_key")),
+    ("filter array bound by a conditional expression", EXPORT,
+     ("        if filtered:\n            filter_arr = ds.filter.all\n"
+      "        else:\n            filter_arr = None\n",
+      "        filter_arr = ds.filter.all if filtered else None\n")),
+    ("gather loop extracted into a helper method", FB,
+     [("            out_arr = np.empty((len(indices),) + self.feat_obj.shape[1:],\n"
+       "                               dtype=self.feat_obj.dtype)\n"
+       "            for ii, idx in enumerate(indices):\n"
+       "                out_arr[ii] = self.feat_obj[idx]\n"
+       "            return out_arr\n",
+       "            return self._gather_events(indices)\n"),
+      ("    def __len__(self):\n        return len(self.basinmap)\n\n"
+       "    @property\n    def shape(self):",
+       "    def _gather_events(self, indices):\n"
+       "        out_arr = np.empty((len(indices),) + self.feat_obj.shape[1:],\n"
+       "                           dtype=self.feat_obj.dtype)\n"
+       "        for ii, idx in enumerate(indices):\n"
+       "            out_arr[ii] = self.feat_obj[idx]\n"
+       "        return out_arr\n\n"
+       "    def __len__(self):\n        return len(self.basinmap)\n\n"
+       "    @property\n    def shape(self):")]),
+    ("hierarchy re-mapping through a local", EXPORT,
+     ('                        if bn_dict["basin_map"] is None:\n'
+      '                            bn_dict["basin_map"] = root_map\n'
+      '                        else:\n'
+      '                            bn_dict["basin_map"] = \\\n'
+      '                                bn_dict["basin_map"][root_map]\n',
+      '                        map_root = bn_dict["basin_map"]\n'
+      '                        if map_root is None:\n'
+      '                            bn_dict["basin_map"] = root_map\n'
+      '                        else:\n'
+      '                            bn_dict["basin_map"] = map_root[root_map]\n')),
+    ("export loop locals renamed", EXPORT,
+     lambda s: s.replace("bn_dict", "basin_kwargs").replace(
+         "basinmap_orig", "map_upstream")),
+    ("upstream map used without a local", EXPORT,
+     lambda s: s.replace(
+         '                    basinmap_orig = bn_dict.get("basin_map")\n',
+         "").replace("basinmap_orig", 'bn_dict["basin_map"]')),
     ("ChildScalar.shape from the child", HIEV,
      ("        return len(self),\n", "        return (len(self.child),)\n")),
     ("H5MaskEvent.shape built from len(self)", H5EV,
